@@ -43,6 +43,7 @@ fn build(p: &Program, ctx: &mut Ctx) {
                     ctx.emit(p, || format!("statement {i}: drop arg {a}"), |q: &mut Program| { if let Statement::Invocation(x) = &mut q.statements[i] { x.args.remove(a); } });
                     ctx.emit(p, || format!("statement {i}: duplicate arg {a}"), |q: &mut Program| { if let Statement::Invocation(x) = &mut q.statements[i] { let v = x.args[a].clone(); x.args.push(v); } });
                     ctx.emit(p, || format!("statement {i}: arg {a} := unknown var"), |q: &mut Program| { if let Statement::Invocation(x) = &mut q.statements[i] { x.args[a] = VarId::new(987654); } });
+                    if a + 1 < inv.args.len() { ctx.emit(p, || format!("statement {i}: arg {} := arg {a} (the same variable twice)", a + 1), |q: &mut Program| { if let Statement::Invocation(x) = &mut q.statements[i] { let v = x.args[a].clone(); x.args[a + 1] = v; } }); }
                     if a + 1 < inv.args.len() { ctx.emit(p, || format!("statement {i}: swap args {a},{}", a + 1), |q: &mut Program| { if let Statement::Invocation(x) = &mut q.statements[i] { x.args.swap(a, a + 1); } }); }
                 }
                 for b in 0..inv.branches.len() {
